@@ -152,7 +152,7 @@ theorem unregister_inv {c : Sys} (i : Inv c) (t : Nat) (hst : c.txs t = none) :
   simp [hid, this]
 
 /-- the spec side: closing `t` filters the open list the same way -/
-theorem close_reg {c : Sys} {s : State} (h : R c s) (t : Nat) :
+theorem close_reg {c : Sys} {s : State} {cl : List Nat} (h : Rx cl c s) (t : Nat) :
     (s.open_.filter (·.id ≠ t)).map (fun x => (x.id, x.level, x.beginStamp))
       = (c.reg.filter (·.id ≠ t)).map (fun r => (r.id, r.level, r.seq)) := by
   have := h.reg
@@ -178,11 +178,11 @@ theorem close_reg {c : Sys} {s : State} (h : R c s) (t : Nat) :
 
 /-- R after discarding the store of `t` (rollback / failed commit) or unregistering a transaction
     without a store: everything except `inv` -/
-theorem close_R_of_inv {c : Sys} {s : State} (h : R c s) (t : Nat) (c' : Sys) (i' : Inv c')
+theorem close_R_of_inv {c : Sys} {s : State} {cl : List Nat} (h : Rx cl c s) (t : Nat) (c' : Sys) (i' : Inv c')
     (hcounter : c'.counter = c.counter) (hdom : c'.dom = c.dom) (hmain : c'.main = c.main)
     (hreg : c'.reg = c.reg.filter (·.id ≠ t))
     (htxs : ∀ t', t' ≠ t → c'.txs t' = c.txs t') :
-    R c' (Spec.close s t) := by
+    Rx cl c' (Spec.close s t) := by
   refine ⟨i', ?_, ?_, ?_, ?_, ?_, ?_⟩
   · show s.clock = c'.counter; rw [hcounter]; exact h.clock
   · show s.dom = c'.dom; rw [hdom]; exact h.dom
